@@ -50,6 +50,9 @@ func run(c *vf.Ctx) {
 	receiveSmall(c)
 	c.Set("phase_receive_small_s", time.Since(t0).Seconds())
 	t0 = time.Now()
+	gracefulClose(c)
+	c.Set("phase_graceful_close_s", time.Since(t0).Seconds())
+	t0 = time.Now()
 	dialogue(c)
 	c.Set("phase_dialogue_s", time.Since(t0).Seconds())
 	t0 = time.Now()
@@ -121,7 +124,7 @@ func (s *scriptConn) written() []byte     { return bytes.Join(s.wrote, nil) }
 func (s *scriptConn) Close() error        { s.closed = true; return nil }
 func (s *scriptConn) LocalAddr() net.Addr { return &net.TCPAddr{IP: net.IPv4(127, 0, 0, 1), Port: 1} }
 func (s *scriptConn) RemoteAddr() net.Addr {
-	return &net.TCPAddr{IP: net.IPv4(127, 0, 0, 1), Port: 139}
+	return &net.TCPAddr{IP: net.IPv4(192, 0, 2, 7), Port: 139} // the address attach() has Connect dial
 }
 func (s *scriptConn) SetDeadline(t time.Time) error      { return nil }
 func (s *scriptConn) SetReadDeadline(t time.Time) error  { return nil }
@@ -521,6 +524,67 @@ func runScript(c *vf.Ctx, sc *script, obs func(string)) {
 
 // ------------------------------------------------------------------ one transport used in both directions
 
+// gracefulClose: the one part of C11 that runs over a REAL loopback TCP connection, because what it looks at is
+// a kernel matter no scripted connection shows: payloads that Send has accepted reach the peer although the
+// sender closes at once (an abortive close - SO_LINGER 0 - discards them and resets the peer). The peer starts
+// reading only after Close has returned. Auxiliary (one schedule, real sockets); skipped and reported as a cap
+// when the sandbox offers no loopback listener.
+func gracefulClose(c *vf.Ctx) {
+	ln, err := net.Listen("tcp", "127.0.0.1:0")
+	if err != nil {
+		c.Cap("no loopback listener for the graceful-close scenario: " + err.Error())
+		return
+	}
+	defer ln.Close()
+	type res struct {
+		data []byte
+		err  error
+	}
+	closed := make(chan struct{})
+	out := make(chan res, 1)
+	go func() {
+		conn, err := ln.Accept()
+		if err != nil {
+			out <- res{nil, err}
+			return
+		}
+		defer conn.Close()
+		<-closed
+		time.Sleep(20 * time.Millisecond)
+		conn.SetReadDeadline(time.Now().Add(5 * time.Second))
+		b, err := io.ReadAll(conn)
+		out <- res{b, err}
+	}()
+	conn, err := net.Dial("tcp", ln.Addr().String())
+	if err != nil {
+		c.Cap("cannot dial the loopback listener: " + err.Error())
+		return
+	}
+	t := nbt.NewNBTTransport()
+	if err := attach(t, conn); err != nil {
+		c.Cap("cannot give the transport the loopback connection: " + err.Error())
+		conn.Close()
+		close(closed)
+		return
+	}
+	var want []byte
+	okSend := true
+	for i := 0; i < 4; i++ {
+		p := content(0x8000, byte(i+1), 1)
+		if _, err := t.Send(p); err != nil {
+			okSend = false
+		}
+		want = append(want, frame(p)...)
+	}
+	vf.Try(func() { t.Close() })
+	close(closed)
+	r := <-out
+	c.Evals(1)
+	c.Check("C11/close/payloads-accepted-by-Send-reach-the-peer-although-the-sender-closes-at-once", okSend && r.err == nil && bytes.Equal(r.data, want), func() string {
+		return fmt.Sprintf("4 Sends of 32 KiB accepted (all ok=%v), then Close; the peer, reading afterwards, got %d of %d bytes, err=%v", okSend, len(r.data), len(want), r.err)
+	})
+}
+
 // dialogue explores every sequence of up to 4 (thorough: 6) operations over {Send(a), Send(b), Receive, IsConnected} on
 // one transport whose peer has ALREADY sent 0..3 frames (a fast server, pipelining, an unsolicited frame):
 // the two directions are independent - the k-th Receive returns the k-th frame the peer sent (an error once
@@ -697,8 +761,14 @@ func reconnect(c *vf.Ctx) {
 							}
 							cb := &scriptConn{stream: B.bytes}
 							if err := attach(t, cb); err != nil {
-								c.Fatalf("second connection: %v", err)
+								// under the dial seam: Connect returned without dialling (or failed) although the first
+								// session had ended / been closed - the caller asked for a connection and has none
+								c.Check(pre+"second-Connect-to-the-same-server-establishes-a-new-connection", false, func() string {
+									return fmt.Sprintf("%s: the second Connect (same address): %v", desc(), err)
+								})
+								continue
 							}
+							c.Check(pre+"second-Connect-to-the-same-server-establishes-a-new-connection", true, nil)
 							for i := 0; i <= len(bl); i++ {
 								var got []byte
 								var err error
